@@ -118,11 +118,15 @@ func (m *Matcher) PreMatch(s []byte) bool {
 	return true
 }
 
-// MatchRegexAndExpand only matches the given key against the "regex" condition,
-// if it matches then it applies the given template and returns the resulting
-// string as the first return value.
-// The second return value indicates whether the regex matches the given key.
+// MatchRegexAndExpand matches the given key against the conditions which
+// PreMatch() leaves out: the "regex" and "notRegex" conditions.
+// If they accept the key then it applies the given template to the regex match
+// and returns the resulting string as the first return value.
+// The second return value indicates whether the key is accepted.
 func (m *Matcher) MatchRegexAndExpand(key, template []byte) (string, bool) {
+	if m.notRegex != nil && m.notRegex.Match(key) {
+		return "", false
+	}
 	var dst []byte
 	matches := m.regex.FindSubmatchIndex(key)
 	if matches == nil {
